@@ -186,6 +186,9 @@ func genFieldExpr(r *Rng, u *Universe, prior []FieldDef, depth int) *FieldExpr {
 var rawFieldChoices = []string{
 	"PERCENTILE(x, 50, 0, 100, 1)",
 	"PERCENTILE(y, 99, 0, 1000, 2)",
+	"LOG2(SUM(x))",
+	"LN(AVG(y))",
+	"LOG10(MAX(z))",
 	"SHIFT(SUM(x), '-1s')",
 	"SHIFT(SUM(y), '-2s')",
 }
@@ -197,7 +200,7 @@ func genTable(r *Rng, u *Universe, name, stream string, o SchemaOpts) TableDef {
 		fd := FieldDef{Name: fmt.Sprintf("f%d", i)}
 		if o.AllowRaw && r.Bool(0.25) {
 			if o.NoShift {
-				fd.E = &FieldExpr{Kind: "raw", Raw: PickOne(r, rawFieldChoices[:2])}
+				fd.E = &FieldExpr{Kind: "raw", Raw: PickOne(r, rawFieldChoices[:5])}
 			} else {
 				fd.E = &FieldExpr{Kind: "raw", Raw: PickOne(r, rawFieldChoices)}
 			}
@@ -509,4 +512,15 @@ func resolvedSQL(t *TableDef, e *FieldExpr) string {
 		}
 	}
 	return e.SQL()
+}
+
+// maybeYield switches the yield layer on for a plan (Cfg.Extra["yield"] is the
+// per-mille rate of paused site passes).
+func maybeYield(r *Rng, p *Plan, prob float64) {
+	if r.Bool(prob) {
+		if p.Cfg.Extra == nil {
+			p.Cfg.Extra = map[string]int64{}
+		}
+		p.Cfg.Extra["yield"] = PickOne(r, []int64{50, 150, 300})
+	}
 }
